@@ -25,6 +25,7 @@ ASSUMPTIONS = [
 ]
 
 FEAT = gen.feat(
+    p_self=0.1,
     bodies={"leaf": 4, "next": 3.5, "rec": 1.5, "fnext": 0.4, "next2": 0.3, "rec_next": 0.6},
     p_kw=0.12, p_optional=0.12, ncorpus=(4, 7), nmeth=(4, 8), p_dup_sig=0.1, p_prio=0.4,
 )
